@@ -182,6 +182,9 @@ fn breaker_plans(thorough: bool) -> Vec<Plan> {
             (format!("{}/queued", k.name), trim(|| seed_queued(&k), 150)),
             (format!("{}/submitted", k.name), trim(|| seed_submitted(&k), 150)),
             (format!("{}/received", k.name), trim(|| seed_received(&k), 150)),
+            // the same with the left-overs of an earlier release in the stored state
+            (format!("{}/foreign_state_received", k.name), trim(|| foreign_state(seed_received(&k)), 150)),
+            (format!("{}/foreign_state_fresh", k.name), trim(|| foreign_state(seed_fresh(&k)), 150)),
         ]);
         let mut o = MenuOpt::base();
         o.halt_resume = true;
